@@ -305,6 +305,25 @@ N("window-addmul-enumerate-offset", ["C15", "C02"],
 B("window-addmul-enumerate-offset-no-break", ["C15"],
   [("src/algorithms/mul.rs", "    for &b in b {\n        if lhs.len() >= a.len() {\n            let (target, rest) = lhs.split_at_mut(a.len());\n            let carry = addmul_nx1(target, a, b);\n            let carry = add_nx1(rest, carry);\n            overflow |= carry != 0;\n        } else {\n            overflow = true;\n            if lhs.is_empty() {\n                break;\n            }\n            addmul_nx1(lhs, &a[..lhs.len()], b);\n        }\n        lhs = &mut lhs[1..];\n    }\n", "    for (i, &b) in b.iter().enumerate() {\n        let window = &mut lhs[i..];\n        if window.len() >= a.len() {\n            let carry = addmul_nx1(&mut window[..a.len()], a, b);\n            let carry = add_nx1(&mut window[a.len()..], carry);\n            overflow |= carry != 0;\n        } else {\n            overflow = true;\n            addmul_nx1(window, &a[..window.len()], b);\n        }\n    }\n")], "addmul")
 
+# ---- R-FACADE: complementary sibling delegation is fine one way, a cycle is not
+N("idiom-is_even-via-is_odd", ["C20"],
+  [("src/support/num_integer.rs", "        !self.bit(0)\n", "        !Integer::is_odd(self)\n")])
+B("facade-is_even-is_odd-cycle", ["C20"],
+  [("src/support/num_integer.rs", "        !self.bit(0)\n", "        !Integer::is_odd(self)\n"),
+   ("src/support/num_integer.rs", "    fn is_odd(&self) -> bool {\n        self.bit(0)\n", "    fn is_odd(&self) -> bool {\n        !Integer::is_even(self)\n")], "mutual-recursion")
+# ---- R-CANON: apply_mask through masked(); R-LOWLIMB / R-CASTFIT: a private helper returning the low limbs
+N("idiom-apply_mask-via-masked", ["C04", "C02"],
+  [("src/lib.rs", "        if Self::SHOULD_MASK {\n            self.limbs[LIMBS - 1] &= Self::MASK;\n        }\n", "        *self = self.masked();\n")])
+
+# ---- D-zero through a closure handed to bool::then
+N("idiom-checked_rem-bool-then", ["C03"],
+  [("src/div.rs", "        if rhs.is_zero() {\n            return None;\n        }\n        Some(self.rem(rhs))", "        let divisible = !rhs.is_zero();\n        divisible.then(|| self.wrapping_rem(rhs))")])
+B("dzero-checked_rem-bool-then-wrong-polarity", ["C03"],
+  [("src/div.rs", "        if rhs.is_zero() {\n            return None;\n        }\n        Some(self.rem(rhs))", "        let divisible = rhs.is_zero();\n        divisible.then(|| self.wrapping_rem(rhs))")], "checked_rem")
+# ---- reviewed call rows survive `match flag` <-> `match option` in front of an explicit panic
+N("idiom-from_limbs_slice-via-checked", ["C17", "C07"],
+  [("src/lib.rs", "        match Self::overflowing_from_limbs_slice(slice) {\n            (n, false) => n,\n            (_, true) => panic!(\"Value too large for this Uint\"),\n        }", "        match Self::checked_from_limbs_slice(slice) {\n            Some(n) => n,\n            None => panic!(\"Value too large for this Uint\"),\n        }")])
+
 # ---- R-TOTAL/overflow-checks on C16 (defect F16, re-created)
 B("ovf-scale-size_hint-256-bit-formula", ["C16"],
   [("src/support/scale.rs", "            _ => self.0.byte_len() + 1,\n", "            _ => (32 - self.0.leading_zeros() / 8) + 1,\n")], "Overflow(Sub:32")
